@@ -511,41 +511,67 @@ fn got<'a, T: ?Sized>(ctx: &mut Ctx, g: &Guarded, name: &str, r: Result<Option<&
     }
 }
 
+/// `debug <name> VAL |PANIC`: formats the value with `{:?}`; only whether it panics is recorded
+fn dbg_line<T: core::fmt::Debug + ?Sized>(ctx: &mut Ctx, name: &str, t: &T) {
+    let r = guard(|| {
+        let _ = format!("{:?}", t);
+    });
+    ctx.ln("debug", format!("{} {}", name, if r.is_ok() { "VAL " } else { "PANIC" }));
+}
+
+/// the raw memory-model byte of a VBE tag (tag offset 555), without going through the enum type
+fn vbe_mm_byte(t: &VBEInfoTag) -> u8 {
+    unsafe { *(t as *const VBEInfoTag as *const u8).add(555) }
+}
+
 /// every typed getter (alphabetical order of the getters), each followed by the accessors of its tag
 pub fn getters(ctx: &mut Ctx, g: &Guarded, bi: &BootInformation) {
     if let Some(t) = got(ctx, g, "apm", guard(|| bi.apm_tag())) {
         k_apm(ctx, t);
+        dbg_line(ctx, "apm", t);
     }
     if let Some(t) = got(ctx, g, "basic_memory_info", guard(|| bi.basic_memory_info_tag())) {
         k_basic_meminfo(ctx, t);
+        dbg_line(ctx, "basic_memory_info", t);
     }
     if let Some(t) = got(ctx, g, "boot_loader_name", guard(|| bi.boot_loader_name_tag())) {
         k_bootloader(ctx, g, t);
+        dbg_line(ctx, "boot_loader_name", t);
     }
     if let Some(t) = got(ctx, g, "bootdev", guard(|| bi.bootdev_tag())) {
         k_bootdev(ctx, t);
+        dbg_line(ctx, "bootdev", t);
     }
     if let Some(t) = got(ctx, g, "command_line", guard(|| bi.command_line_tag())) {
         k_cmdline(ctx, g, t);
+        dbg_line(ctx, "command_line", t);
     }
-    got(ctx, g, "efi_bs_not_exited", guard(|| bi.efi_bs_not_exited_tag()));
+    if let Some(t) = got(ctx, g, "efi_bs_not_exited", guard(|| bi.efi_bs_not_exited_tag())) {
+        dbg_line(ctx, "efi_bs_not_exited", t);
+    }
     if let Some(t) = got(ctx, g, "efi_ih32", guard(|| bi.efi_ih32_tag())) {
         k_efi_ih32(ctx, t);
+        dbg_line(ctx, "efi_ih32", t);
     }
     if let Some(t) = got(ctx, g, "efi_ih64", guard(|| bi.efi_ih64_tag())) {
         k_efi_ih64(ctx, t);
+        dbg_line(ctx, "efi_ih64", t);
     }
     if let Some(t) = got(ctx, g, "efi_memory_map", guard(|| bi.efi_memory_map_tag())) {
         k_efi_mmap(ctx, g, t);
+        dbg_line(ctx, "efi_memory_map", t);
     }
     if let Some(t) = got(ctx, g, "efi_sdt32", guard(|| bi.efi_sdt32_tag())) {
         k_efi_sdt32(ctx, t);
+        dbg_line(ctx, "efi_sdt32", t);
     }
     if let Some(t) = got(ctx, g, "efi_sdt64", guard(|| bi.efi_sdt64_tag())) {
         k_efi_sdt64(ctx, t);
+        dbg_line(ctx, "efi_sdt64", t);
     }
     if let Some(t) = got(ctx, g, "elf_sections", guard(|| bi.elf_sections_tag())) {
         k_elf(ctx, g, t);
+        dbg_line(ctx, "elf_sections", t);
     }
     match guard(|| bi.framebuffer_tag()) {
         Err(()) => ctx.ln("get", "framebuffer PANIC"),
@@ -553,29 +579,59 @@ pub fn getters(ctx: &mut Ctx, g: &Guarded, bi: &BootInformation) {
         Ok(Some(Ok(t))) => {
             ctx.ln("get", format!("framebuffer some {}", view(g, t)));
             k_framebuffer(ctx, g, t);
+            dbg_line(ctx, "framebuffer", t);
         }
         Ok(Some(Err(e))) => ctx.ln("get", format!("framebuffer some {}", unknown_fb(e))),
     }
     if let Some(t) = got(ctx, g, "load_base_addr", guard(|| bi.load_base_addr_tag())) {
         k_load_base_addr(ctx, t);
+        dbg_line(ctx, "load_base_addr", t);
     }
     if let Some(t) = got(ctx, g, "memory_map", guard(|| bi.memory_map_tag())) {
         k_mmap(ctx, g, t);
+        dbg_line(ctx, "memory_map", t);
     }
     if let Some(t) = got(ctx, g, "network", guard(|| bi.network_tag())) {
         k_network(ctx, g, t);
+        dbg_line(ctx, "network", t);
     }
     if let Some(t) = got(ctx, g, "rsdp_v1", guard(|| bi.rsdp_v1_tag())) {
         k_rsdp_v1(ctx, t);
+        dbg_line(ctx, "rsdp_v1", t);
     }
     if let Some(t) = got(ctx, g, "rsdp_v2", guard(|| bi.rsdp_v2_tag())) {
         k_rsdp_v2(ctx, t);
+        dbg_line(ctx, "rsdp_v2", t);
     }
     if let Some(t) = got(ctx, g, "smbios", guard(|| bi.smbios_tag())) {
         k_smbios(ctx, g, t);
+        dbg_line(ctx, "smbios", t);
     }
+    let mut vbe_undefined = false;
     if let Some(t) = got(ctx, g, "vbe_info", guard(|| bi.vbe_info_tag())) {
         k_vbe(ctx, t);
+        if vbe_mm_byte(t) > 7 {
+            // known finding F18: formatting would materialise an invalid enum value
+            vbe_undefined = true;
+            ctx.ln("debug", "vbe_info UB");
+        } else {
+            dbg_line(ctx, "vbe_info", t);
+        }
+    }
+    #[allow(deprecated)]
+    let dep = guard(|| bi.elf_sections().map(|it| it.len()));
+    ctx.ln(
+        "get",
+        match dep {
+            Err(()) => "elf_sections_deprecated PANIC".to_string(),
+            Ok(None) => "elf_sections_deprecated VAL none".to_string(),
+            Ok(Some(n)) => format!("elf_sections_deprecated VAL some rem={}", n),
+        },
+    );
+    if vbe_undefined {
+        ctx.ln("debug", "boot UB-SKIPPED");
+    } else {
+        dbg_line(ctx, "boot", bi);
     }
 }
 
